@@ -268,6 +268,20 @@ pub fn templates() -> Vec<(&'static str, Def)> {
             false,
         ),
     ));
+    v.push((
+        "svc-inline-only-fb",
+        svc(
+            vec![
+                func("f", "1", FnBody::Ok(istruct(vec![], fb("rest")))),
+                func("g", "2", FnBody::Full { args: part(ienum(vec![], fb("Other"))), ok: part(istruct(vec![], fb("more"))), err: None }),
+                ev("e", "1", Some(ienum(vec![], fb("Unknown")))),
+                ev("e2", "2", Some(istruct(vec![], fb("all")))),
+            ],
+            None,
+            None,
+            false,
+        ),
+    ));
     v.push(("svc-ev-none", svc(vec![ev("e", "1", None)], None, None, false)));
     v.push(("svc-ev-ty", svc(vec![ev("e", "1", Some(ty(prim("u8"))))], None, None, false)));
     v.push((
